@@ -463,6 +463,45 @@ func runC02(c *Ctx) {
 			}
 		}
 		c.Cond(bad == "", "C02.O8", fnKey(c.P, gc, "lookup/insert agree, insert on miss"), c.FnPos(gc), "same key, insert on !ok", bad)
+		// every session handed out comes from this call's lookup in the session table or was
+		// created by it: a session cached anywhere else is not invalidated when it closes
+		// (udpConn.Close removes it from the table only)
+		{
+			bad := ""
+			n := 0
+			var fromTable func(v ssa.Value, d int) bool
+			fromTable = func(v ssa.Value, d int) bool {
+				if d > 6 {
+					return false
+				}
+				switch x := v.(type) {
+				case *ssa.Phi:
+					for _, e := range x.Edges {
+						if !fromTable(e, d+1) {
+							return false
+						}
+					}
+					return true
+				case *ssa.Extract:
+					if lk, ok := x.Tuple.(*ssa.Lookup); ok && c.P.LoadedField(ir.Resolve(lk.X)) == "nbio.udpConn.conns" {
+						return true
+					}
+				case *ssa.Lookup:
+					return c.P.LoadedField(ir.Resolve(x.X)) == "nbio.udpConn.conns"
+				case *ssa.Alloc:
+					return x.Heap && x.Parent() == gc
+				}
+				return false
+			}
+			for _, r := range c.P.Info(gc).Returns() {
+				n++
+				v := ir.RetVals(r)[0]
+				if !fromTable(v, 0) {
+					bad = "getConn returns " + c.P.Desc(v) + " at " + c.Pos(r) + ", which is neither this call's lookup in the session table nor the session it created: a closed session (removed from the table only) would keep receiving the remote's datagrams"
+				}
+			}
+			c.Cond(bad == "", "C02.O8", fnKey(c.P, gc, "sessions come from the table"), c.FnPos(gc), fmt.Sprintf("%d return(s): table lookup or fresh session", n), bad)
+		}
 	}
 	if ru := c.Fn("C02.O8", "(*nbio.Conn).readUDP"); ru != nil {
 		fi := c.P.Info(ru)
